@@ -198,7 +198,7 @@ impl Model {
             if let Some(a) = s.a {
                 r.vals.a = a;
             }
-            if let Some(b) = s.b {
+            if let Some(b) = s.b.value() {
                 r.vals.b = b;
             }
             if let Some(x) = s.s {
@@ -206,7 +206,7 @@ impl Model {
             }
         }
         if !ids.is_empty() {
-            self.note_one_kind(me, t, [s.a.is_some(), s.b.is_some(), s.s.is_some(), false]);
+            self.note_one_kind(me, t, [s.a.is_some(), s.b != SetB::Keep, s.s.is_some(), false]);
             if let Some(h) = me {
                 self.txs[h].kinds |= 2;
             }
